@@ -23,11 +23,11 @@ type node = { k : char; root : bool; mutable f : int array; mutable items : int 
               mutable kv : (int * int) list }
 
 let kind_of = function
-  | 'S' | 's' | 'W' | 'F' -> KStruct | 'R' | 'r' -> KRef | 'B' -> KBox | 'A' -> KArray | 'L' -> KList
+  | 'S' | 's' | 'W' | 'F' | 'P' -> KStruct | 'R' | 'r' -> KRef | 'B' -> KBox | 'A' -> KArray | 'L' -> KList
   | 'T' | 'Y' -> KTable | 'E' | 'Z' -> KTree | 'U' | 'u' | 'V' -> KTuple | _ -> KLeaf
 let is_reg k = k >= 'A' && k <= 'Z'
 let ptrs nd = match nd.k with
-  | 'S' | 's' | 'W' | 'R' | 'r' | 'B' -> Array.to_list nd.f
+  | 'S' | 's' | 'W' | 'R' | 'r' | 'B' | 'P' -> Array.to_list nd.f
   | 'F' -> []
   | 'V' -> List.filter (fun x -> x <> 0) (Array.to_list nd.f)      (* the Mark method skips NULL fields *)
   | 'T' | 'E' | 'Y' | 'Z' -> List.map snd nd.kv
@@ -168,6 +168,46 @@ let run mode line =
           end else store id;
           Hashtbl.replace stack id ();
           roots ()
+        | 'O' -> ()      (* use of a view: nothing changes *)
+        | 'V' ->
+          (* V<id><k>=<a>[,<b>]: heap view object; its internal managed objects take the following ids *)
+          let id = List.hd (ints rest) in
+          let digits = String.length (string_of_int id) in
+          let k = rest.[digits] in
+          let ins = match ints (String.sub rest (digits + 1) (String.length rest - digits - 1)) with x -> x in
+          let a = (match ins with x :: _ -> x | [] -> 0) and b = (match ins with _ :: y :: _ -> y | _ -> 0) in
+          let mk id k f items =
+            let nd = { k; root = false; f; items; kv = [] } in
+            let empty = { nd with f = Array.map (fun _ -> 0) f; items = [] } in
+            Hashtbl.replace nodes id nd;
+            if spec then begin
+              sheap := gm_nset (addr id) (contents nd) !sheap;
+              sreg := gm_nset (addr id) false !sreg;
+              sorder := addr id :: !sorder
+            end else begin
+              flush_roots (); do_step (EAlloc (addr id, contents empty, false)); do_step (EStore (addr id, contents nd))
+            end in
+          (* the view itself first (held in a stack slot), then what its constructor allocates *)
+          (match k with
+           | 'z' ->
+             (* Zip_New: z->iters = new(Tuple); z->values = new(Tuple); assign(z->iters, args) *)
+             mk id 'P' [|0; 0|] []; Hashtbl.replace stack id (); roots ();
+             mk (id + 1) 'U' [||] []; (Hashtbl.find nodes id).f.(0) <- id + 1; store id;
+             mk (id + 2) 'U' [||] []; (Hashtbl.find nodes id).f.(1) <- id + 2; store id;
+             (Hashtbl.find nodes (id + 1)).items <- [a; b]; store (id + 1)
+           | 'l' ->
+             (* Slice_New: s->range = new(Range) — Range_New: r->value = new(Int) while the Range is only in a local —
+                then slice_stack stores the input *)
+             mk id 'P' [|0; 0|] []; Hashtbl.replace stack id (); roots ();
+             mk (id + 1) 'P' [|0|] []; Hashtbl.replace stack (id + 1) (); roots ();
+             mk (id + 2) 'I' [||] [];
+             (Hashtbl.find nodes (id + 1)).f.(0) <- id + 2; store (id + 1);
+             (Hashtbl.find nodes id).f.(1) <- id + 1; (Hashtbl.find nodes id).f.(0) <- a; store id;
+             Hashtbl.remove stack (id + 1); roots ()
+           | 'r' -> mk id 'P' [|0|] []; Hashtbl.replace stack id (); roots ();
+                    mk (id + 1) 'I' [||] []; (Hashtbl.find nodes id).f.(0) <- id + 1; store id
+           | 'm' | 'f' -> mk id 'P' [|a|] []; Hashtbl.replace stack id (); roots ()
+           | _ -> failwith "V")
         | 'L' ->
           (* L<first>,<n>,<K>,<tail>: singly linked chain, the head stays in a stack slot *)
           (match String.split_on_char ',' rest with
